@@ -51,12 +51,12 @@ func runSweep(pkgPaths []string, timeout time.Duration, filter string) int {
 	os.RemoveAll(outDir)
 	os.MkdirAll(outDir, 0o755)
 	type row struct {
-		name         string
-		n, bad       int
-		err          string
-		fails        []string
-		requires     []string
-		loops        int
+		name     string
+		n, bad   int
+		err      string
+		fails    []string
+		requires []string
+		loops    int
 	}
 	rows := make([]row, len(fns))
 	var wg sync.WaitGroup
